@@ -171,6 +171,7 @@ func runC10(w *World) *Result {
 	r.Rule("R-C10-names", "each compiler-owned name pattern is disjoint from the user identifier language or protected by an emission scheme", 40)
 	r.Rule("R-C10-prefix", "imported names are kept apart by a prefix that is a digest of the whole file content, so behaviour does not depend on which names two imported files share", 1)
 	PrefixDigestRule(w, r, "R-C10-prefix", nil)
+	c09PrefixApplied(w, r, "R-C10-prefix")
 	identRe, kw, err := LexerIdentifierLanguage(w)
 	if err != nil {
 		r.Bad("R-C10-names", "lexer:identifier-language", "-", err.Error())
